@@ -227,6 +227,9 @@ def c03_forms(tier):
     out.append(NForm("tri_one_sided", "triangle", tri_one_sided))
     out.append(NForm("interval_p2_bilinear", "interval", lag_bilinear("interval", 2)))
     out.append(NForm("quad_q2_bilinear", "quadrilateral", lag_bilinear("quadrilateral", 2)))
+    # degree-1 tensor-product elements: derivative tables are constant along two facets and linear along the others
+    out.append(NForm("quad_q1_bilinear", "quadrilateral", lag_bilinear("quadrilateral", 1)))
+    out.append(NForm("quad_dq1_bilinear", "quadrilateral", lag_bilinear("quadrilateral", 1, "DQ")))
     out.append(NForm("quad_linear", "quadrilateral", lag_linear("quadrilateral", 2)))
     out.append(NForm("tet_p2_bilinear", "tetrahedron", lag_bilinear("tetrahedron", 2)))
     out.append(NForm("tet_linear", "tetrahedron", lag_linear("tetrahedron", 2)))
